@@ -476,6 +476,23 @@ def c09h(ctx):
                     ctx.fail(o, Site(b, tb, 0), "InMemoryKeyOfSetMap::insert creates a new set for a key but can return without publishing it in the map: the element is lost")
 
 
+def c09h_remove(ctx):
+    """... and a remove that finds the key's set takes the element out of it (else a dropped dependency keeps dirtying a
+    caller that no longer reads the callee, and a read of the set returns a member that was removed)."""
+    prog = ctx.prog
+    o = ctx.ob("C09.h", "in-memory/remove-reaches-the-set", "K2", "InMemoryKeyOfSetMap::remove calls remove_element whenever the key has a set")
+    b = ctx.touch(prog.coroutine_of("<InMemoryKeyOfSetMap as KeyOfSetMap>::remove"))
+    rm = b.calls_to(r"ConcurrentSet::remove_element$")
+    some = [(sb, tb) for sb, tb, v, c in df.variant_edges(b, "core::option::Option") if v == 1]
+    o.sites = len(rm) + len(some)
+    if not rm or not some:
+        ctx.fail(o, Site(b, 0, 0), "InMemoryKeyOfSetMap::remove never removes the element from the key's set (remove_element=%d, Some edges=%d)" % (len(rm), len(some)))
+        return
+    for sb, tb in some:
+        if b.must_pass([tb], [s_.bb for s_ in rm]):
+            ctx.fail(o, Site(b, tb, 0), "InMemoryKeyOfSetMap::remove finds the key's set and can return without removing the element")
+
+
 def c09i(ctx):
     """The merging reader of a key-of-set entry drains several sources in turn (the half-built set of a spilled load, the
     rest of the database scan, the staged additions) and drops the members that have a staged Remove.  Dropping one member
@@ -712,6 +729,7 @@ def run(ctx):
     ctx.run_clause("C09.g", c09g_staging)
     ctx.run_clause("C09.g", c09g_order)
     ctx.run_clause("C09.h", c09h)
+    ctx.run_clause("C09.h", c09h_remove)
     ctx.run_clause("C09.i", c09i)
     ctx.run_clause("C09.n", c09n)
     ctx.run_clause("C09.k", c09k)
